@@ -394,8 +394,9 @@ def oracle_c01(ctx, focus, langs=None):
         # the same inside LONG sentences: z ordinary words before and after, z a size mined from the source (srcmine.py)
         wd = CONTEXT[lang][0].split(" ")[0]
         far, freq = [], []
-        for z in _srcmine.sizes(41, 20000):
-            for (g, ph, exp) in cases[:: max(1, len(cases) // 3)][:3]:
+        multiw = [c for c in cases if " " in c[1]] or cases
+        for z in _srcmine.sizes(41, 1100000):
+            for (g, ph, exp) in multiw[:: max(1, len(multiw) // 3)][: (3 if z < 20000 else 1)]:
                 far.append((z, g, ph, exp))
                 freq.append("text\t%s\t%s\t%s" % (lang, THR0, esc((wd + " ") * z + ph + (" " + wd) * z)))
         for (z, g, ph, exp), o in zip(far, run_impl(ctx, "c01far" + lang, freq) if freq else []):
@@ -1392,7 +1393,8 @@ def oracle_c10(ctx, focus):
         av = run_impl(ctx, "c10v" + lang, ["val\t%s\t%s" % (lang, esc(w)) for w in aff])
         at = run_impl(ctx, "c10t" + lang, ["tok\t%s" % esc(w) for w in aff])      # one token each (a leading dash would be cut off)
         aff = [w for w, v, tk in zip(aff, av, at) if v.startswith("ERR") and "," not in tk and w not in linking_words(lang)]
-        sep_pool = sorted({w for st in STRONG[lang] for w in st.split(" ")}) + aff
+        # + words of scripts without case (CJK, kana, Hangul, Hebrew, Arabic, Devanagari, Thai): letters all the same
+        sep_pool = sorted({w for st in STRONG[lang] for w in st.split(" ")}) + aff + streams.CASELESS
         for _ in range(800 if ctx.tier != "thorough" else 15000):
             a = sentence(rng, lang, bank + small_bank, extra=extra)
             b = sentence(rng, lang, bank + small_bank, extra=extra)
@@ -2109,7 +2111,11 @@ def oracle_c18(ctx, focus):
         texts.append(["x", "o", tok_, "y"])
         texts.append(["dial", "o", tok_, "now"])
     # hyphenated compounds of vocabulary words, the conjunction included (`hundred-and`: ends mid-number)
-    comp = [x + "-and" for x in numw if x.isalpha()] + ["and-" + x for x in numw[:4]] + [x + "-" + y for x in numw[:5] for y in numw[5:9] if x.isalpha() and y.isalpha()]
+    comp = [x + "-and" for x in numw if x.isalpha()] + ["and-" + x for x in numw[:4]]
+    # every ordered pair of number words glued by a hyphen -- numbers (`twenty-one`), and compounds whose parts are number words
+    # that do not fit together (`one-twenty`, `ten-zero`, `o-one`: the interpreter answers Overlap, not "unknown word")
+    nw2 = [x for x in numw if x.isalpha()] + ["ten", "thirty", "five", "o", "million", "second"]
+    comp += [x + "-" + y for x in nw2 for y in nw2] + [x + "-" + y + "-" + x for x in nw2[:6] for y in nw2[3:9]]
     for c_ in comp:
         texts.append([c_, "o", "x"])
         texts.append(["x", "o", c_])
